@@ -630,8 +630,11 @@ def _obligations_unit(res, obs):
             o = obs.setdefault((fid, 'implements_trait_contract'), {'props': set(), 'kind': 'trait', 'texts': ['meets the contract stated on trait %s::%s' % (t, name)], 'where': '%s:%d' % decls[(t, name)]['where']})
             o['props'].update(model.entry_props.get(fid, []))
             o['props'].update(decls[(t, name)]['props'])
+    known_fns = load_known_functions()
     for fn, st in res['funcs'].items():
         mod = fn.split('::')[0]
+        if st['mode'] == 'exec' and mod in CRATE_MODS and known_fns is not None and fn not in known_fns and fn not in model.entry_props:
+            continue      # a new function without a contract: nothing is claimed about it (see new_functions)
         if st['mode'] == 'exec' and mod in CRATE_MODS:
             o = obs.setdefault((fn, 'safety'), {'props': set(), 'kind': 'safety', 'texts': ['body: no panic (bounds, overflow, unwrap, assert!), callee preconditions, termination'], 'where': ''})
             o['props'].add('C10')
@@ -690,6 +693,26 @@ def load_trusted_allow(fname='trusted.txt'):
             parts = [x.strip() for x in l.split('|')]
             allow.append((parts[0], parts[1], parts[2] if len(parts) > 2 else ''))
     return allow
+
+
+# --------------------------------------------------------------------------- functions the contracts know
+
+def load_known_functions():
+    """contracts/known_functions.txt: every exec function of the verified text on the tree the contracts were written for.
+    A function that is NOT in this list is new (extracted helper, renamed function): it has no contract, so a failed
+    obligation inside it is a missing precondition and a failed obligation in its callers is a missing postcondition -
+    lost proofs, not violations."""
+    p = os.path.join(ROOT, 'contracts', 'known_functions.txt')
+    if not os.path.exists(p):
+        return None
+    return {l.strip() for l in open(p) if l.strip() and not l.startswith('#')}
+
+
+def new_functions(res):
+    known = load_known_functions()
+    if known is None:
+        return set()
+    return {fn for fn, st in res['funcs'].items() if st['mode'] == 'exec' and fn.split('::')[0] in CRATE_MODS and fn not in known}
 
 
 # --------------------------------------------------------------------------- known findings
@@ -778,8 +801,25 @@ def check_property(pid, tier, res=None, vres=None, quiet=False):
                 end = m.fns[k + 1][0] if k + 1 < len(m.fns) else len(m.lines) + 1
                 if caller != fid and re.search(r'\b%s\s*\(' % re.escape(short), '\n'.join(m.lines[ln:end - 1])):
                     tainted.add(caller)
+    # new functions (not in contracts/known_functions.txt, no contract): their callers see no postcondition, and their own
+    # failures are missing preconditions
+    newf = new_functions(res)
+    for u in res['units']:
+        m = u['model']
+        for fid in sorted(newf):
+            if fid not in u['funcs']:
+                continue
+            short = fid.split('::')[-1]
+            for k, (ln, caller) in enumerate(m.fns):
+                end = m.fns[k + 1][0] if k + 1 < len(m.fns) else len(m.lines) + 1
+                if caller != fid and re.search(r'\b%s\s*\(' % re.escape(short), '\n'.join(m.lines[ln:end - 1])):
+                    tainted.add(caller)
     tainted_failed = {k: v for k, v in failed.items() if k[0] in tainted}
     failed = {k: v for k, v in failed.items() if k[0] not in tainted}
+    if pid == 'C10':
+        for e in res['errors']:
+            if e.get('fn') in newf and e['kind'] != 'resource':
+                tainted_failed.setdefault((e.get('fn'), 'new_function_without_contract'), []).append(e)
     # functions that failed without any mapped diagnostic (should not happen) -> undecided
     fns_mine = {k[0] for k in mine}
     for fn in fns_mine:
@@ -875,8 +915,9 @@ def check_property(pid, tier, res=None, vres=None, quiet=False):
     elif tainted_failed and not pf:
         for l in lines_out:
             print(l)
-        raise Undecided('obligation(s) %s failed in function(s) whose proof hints lost their anchor (%s); no counterexample available -> not reported as a violation'
-                        % (sorted('%s#%s' % k for k in tainted_failed), sorted({h['anchor'] for h in lost_hints if h['fn'] in {k[0] for k in tainted_failed}})[:3]))
+        raise Undecided('obligation(s) %s failed in function(s) whose proof hints lost their anchor (%s)%s; no counterexample available -> not reported as a violation'
+                        % (sorted('%s#%s' % k for k in tainted_failed), sorted({h['anchor'] for h in lost_hints if h['fn'] in {k[0] for k in tainted_failed}})[:3],
+                           (' or that are / call new functions without a contract (%s)' % ', '.join(sorted(newf))) if newf else ''))
     elif resource and not pf:
         raise Undecided('resource limit / solver give-up in %s' % sorted({e.get('fn') for e in resource}))
     # evidence
@@ -993,6 +1034,14 @@ def main(argv):
         print(json.dumps({k: d[k] for k in d if k != 'verifier_output'}, indent=1))
         for o in d.get('verifier_output', []):
             print(o)
+        return 0
+    if argv and argv[0] == 'write-known-functions':
+        res = collect(vacuity=False, tier='thorough')
+        fns = sorted(fn for fn, st in res['funcs'].items() if st['mode'] == 'exec' and fn.split('::')[0] in CRATE_MODS)
+        with open(os.path.join(ROOT, 'contracts', 'known_functions.txt'), 'w') as f:
+            f.write('# exec functions of the verified text on the tree the contracts were written for (python3 framework/check.py write-known-functions)\n')
+            f.write('\n'.join(fns) + '\n')
+        print('%d functions' % len(fns))
         return 0
     tier = os.environ.get('VERIF_TIER', 'quick')
     if '--tier' in argv:
